@@ -113,6 +113,12 @@ def c05(kind, version, routes, raw, obs, info=None):
     bad = []
     info = info or {}
     call = parse_call(raw)
+    if kind == "malformed-5th":
+        hs5, w5 = [e for e in obs if e[0] == "handler"], sends(obs)
+        if hs5 or w5:
+            bad.append(("malformed-accepted:%s" % version,
+                        "a CALL frame with a surplus fifth element was processed: handler ran %r, written %r" % (bool(hs5), w5[:1])))
+        return bad
     if call is None:
         return bad
     handlers = [e for e in obs if e[0] == "handler"]
@@ -192,6 +198,10 @@ def c07(kind, version, routes, raw, obs, info=None):
 def c16(kind, version, routes, raw, obs, info=None):
     bad = []
     call = parse_call(raw)
+    if kind == "malformed-5th":
+        if [e for e in obs if e[0] == "handler"] or sends(obs):
+            bad.append(("malformed-accepted:%s" % version, "a CALL frame with a surplus fifth element was processed: written %r" % (sends(obs)[:1],)))
+        return bad
     if call is None:
         return bad
     uid, action, payload = call
@@ -208,6 +218,9 @@ def c16(kind, version, routes, raw, obs, info=None):
             want = _camel(remove_nones(out[1]))
             if not (len(w) == 1 and w[0][0] == 3 and same_value(w[0][2], want)):
                 bad.append(("skip-result-changed:" + tag, "with validation skipped the result %r was written as %r" % (want, w)))
+    if kind == "skip-vendor" and isinstance(payload, dict):
+        if len(hs) != 1 or not (len(w) == 1 and w[0][0] == 3):
+            bad.append(("skip-vendor:" + tag, "a route that skips validation for an action without a shipped schema: handler ran %d time(s), written %r" % (len(hs), w[:1])))
     if kind == "bad-req-other-skips":
         if hs or not (len(w) == 1 and w[0][0] == 4):
             bad.append(("skip-leaked:" + tag, "another route's skip flag exempted %s from validation" % action))
@@ -220,9 +233,16 @@ def c16(kind, version, routes, raw, obs, info=None):
 def c17(kind, version, routes, raw, obs, info=None):
     bad = []
     call = parse_call(raw)
-    if call is None or not kind.startswith("unhandled") and kind != "id-unhandled":
+    if call is None or not kind.startswith("unhandled") and kind not in ("id-unhandled", "after-only"):
         return bad
     uid, action, payload = call
+    if kind == "after-only":
+        # only an after-hook is registered: nothing handles the action -- NotImplemented, and the hook stays out
+        w0 = sends(obs)
+        if [e for e in obs if e[0] in ("handler", "after", "escape")] or not (len(w0) == 1 and w0[0][0] == 4 and w0[0][2] == "NotImplemented"):
+            bad.append(("after-only:%s:%s" % (version, action), "a CALL for %s, for which only an after-hook is registered, led to %r" % (
+                action, [e[:2] for e in obs][:4])))
+        return bad
     if _route_for(routes, action) is not None:
         return bad
     # "the action belongs to the endpoint's OCPP version": it has a request schema there (independent of the
